@@ -642,14 +642,44 @@ class SDyad:
                 return float(fractions.Fraction(a.m, 1 << a.k) / f)
             return SDyad.arith('*', a, SDyad(inv.numerator, inv.denominator.bit_length() - 1))
         if op == '**':
-            # (-1)**sym, 2**sym handled by integer arith; here: concrete base, concrete exponent only
+            if isinstance(b, (int, np.integer)) and not isinstance(b, bool) and b >= 0:
+                r = 1
+                for _ in range(int(b)):
+                    r = SDyad.arith('*', r, a)
+                return r
             raise NeedConcrete('power with dyadic operand')
         raise NeedConcrete('dyadic op ' + op)
 
     @staticmethod
     def compare(op, a, b):
-        x, y, k = SDyad.align(a, b)
+        try:
+            x, y, k = SDyad.align(a, b)
+        except NeedConcrete:
+            return SDyad._compare_fraction(op, a, b)
         return compare(op, x, y)
+
+    @staticmethod
+    def _compare_fraction(op, a, b):
+        """exact comparison of a symbolic dyadic m*2^-k with an arbitrary concrete rational t (e.g. a float tolerance):
+        m*2^-k > t  <=>  m > t*2^k  <=>  m >= floor(t*2^k)+1"""
+        if isinstance(b, (SDyad, SV)) and not isinstance(a, (SDyad, SV)):
+            flip = {'<': '>', '>': '<', '<=': '>=', '>=': '<=', '==': '==', '!=': '!='}[op]
+            return SDyad._compare_fraction(flip, b, a)
+        a = SDyad.lift(a)
+        t = fractions.Fraction(b) * (1 << a.k)
+        fl = t.numerator // t.denominator
+        integral = t.denominator == 1
+        if op == '>':
+            return compare('>=', a.m, fl + 1)
+        if op == '>=':
+            return compare('>=', a.m, fl if integral else fl + 1)
+        if op == '<':
+            return compare('<=', a.m, fl - 1 if integral else fl)
+        if op == '<=':
+            return compare('<=', a.m, fl)
+        if op == '==':
+            return compare('==', a.m, fl) if integral else False
+        return compare('!=', a.m, fl) if integral else True
 
     @staticmethod
     def ite(c, a, b):
@@ -727,15 +757,11 @@ class SAbs:
 
     def compare(self, op, a, b):
         if a is self and not isinstance(b, (SAbs, SV, SDyad, SC)):
-            tol = float(b)
-            nz = b_or(compare('!=', self.c.re, 0), compare('!=', self.c.im, 0))
-            if 0 < tol < 2.0 ** -8:
-                if op in ('>', '>='):
-                    return nz
-                if op in ('<', '<='):
-                    return b_not(nz)
-            if tol == 0:
-                return {'>': nz, '!=': nz, '==': b_not(nz), '<=': b_not(nz), '>=': True, '<': False}[op]
+            tol = fractions.Fraction(b)
+            if tol < 0:
+                return {'>': True, '>=': True, '!=': True, '<': False, '<=': False, '==': False}[op]
+            sq = arith('+', arith('*', self.c.re, self.c.re), arith('*', self.c.im, self.c.im))    # |z|^2, exact
+            return compare(op, sq, tol * tol) if not isinstance(sq, (SV, SDyad)) else SDyad._compare_fraction(op, sq, tol * tol)
         raise NeedConcrete('comparison of |z| with %r' % (b,))
 
     def __gt__(self, o): return self.compare('>', self, o)
